@@ -258,6 +258,11 @@ def fixed_cases():
     mk(aliases=chain3, preferred=[], ops=ops, reads=[['g', ['n', 'B']]])
     mk(aliases=[['A', 'X']], ops=[['query', ['contains', 'A']]])                               # kept finding: `in` is not wrapped
     mk(aliases=[['B', 'C'], ['A', 'B'], ['C', 'D'], ['D', 'X']], preferred=['C'], ops=ops[:3], reads=[['g', ['l', 'A', 10]]])   # chain of 4, dict order scrambled
+    chain6 = [['a%d' % i, 'a%d' % (i + 1)] for i in range(1, 6)] + [['a6', 'X']]
+    ops6 = [['setitem', ['l', 'a1', 11], S(['i', 9])], ['setattr', 'a3', li(1, 1, 1)], ['query', 'completions'], ['query', ['contains', 'a2']]]
+    mk(aliases=chain6, preferred=['a1'], ops=ops6, ivs=[['a2', li(1, 2, 3)]], reads=[['g', ['n', 'a1']], ['a', 'a5']])   # chain of 6: 3 passes
+    mk(aliases=list(reversed(chain6)), preferred=['a4'], ops=ops6, reads=[['g', ['l', 'a6', 10]]])
+    mk(aliases=chain6[:5] + [['a6', 'a1']])                                                   # 6-cycle
     mk(aliases=[['Y', 'Y'], ['A', 'X']], ops=ops[:2])                                          # self-map
     mk(aliases=[['A', 'A']], ops=[['setattr', 'A', S(['i', 1])]])
     mk(aliases=[['X', 'Y'], ['Y', 'X']])                                                      # 2-cycle (was a hang before adac991)
@@ -659,7 +664,7 @@ def _oracle(case, obs):
             # what they return: the twin's answer, plus the alias names where names are listed
             a, t = stp.get('ret'), stp.get('twin_ret')
             alias_names = [k for k, v in al if k != v]
-            if op[1] == 'completions' and not (isinstance(a, dict) and isinstance(t, dict) and a['names'] == t['names'] + alias_names):
+            if op[1] == 'completions' and not (isinstance(a, dict) and isinstance(t, dict) and sorted(a['names']) == sorted(t['names'] + alias_names)):
                 bad('hook|completions', 'op %d: _ipython_key_completions_() gave %s; variables %s + aliases %s expected' % (i, a, t, alias_names))
             elif op[1] == 'dir' and not (isinstance(a, dict) and isinstance(t, dict)
                                          and a['names'] == sorted(t['names'] + [x for x in alias_names if x not in a.get('masked', [])])):
